@@ -237,6 +237,12 @@ func (s *Sys) execX(op []string, note func(string, ...any)) string {
 			return "ok"
 		}
 		return s.h.waitPrunes()
+	case "oraw": // x oraw: the raw branch bookkeeping of the tree database (V2Orphans.v)
+		r, err := orphanRaw(s.cur)
+		if err != nil {
+			return "err:" + clip(firstLine(err.Error()))
+		}
+		return r
 	case "prunewait": // x prunewait: wait for the pruners started by "x prune n nowait"
 		if s.h == nil {
 			return "closed"
